@@ -196,8 +196,11 @@ def run(ctx: Ctx) -> None:
             pool = names
             for k in range(n_unreg):
                 base_name = r.choice(pool)
-                kind = r.choice(["space", "trunc", "dot", "empty", "unicode", "random", "prefix"])
-                if kind == "space":
+                kind = r.choice(["space", "trunc", "dot", "empty", "unicode", "random", "prefix", "markup"])
+                if kind == "markup":
+                    # characters that mean something to string formatting / templating / regular expressions
+                    s = r.choice(["{@}", "vehicle.{@}", "@{", "}@", "{}", "{0}", "%s", "%(name)s", "@%d", "$@", "\\@", "@*", "(@", "[@", "@\n", "{"]).replace("@", base_name)
+                elif kind == "space":
                     s = base_name + " "
                 elif kind == "trunc":
                     s = base_name[:-1]
